@@ -59,6 +59,9 @@ func TestMain(m *testing.M) {
 	glue.LoadRegistry()
 	intermediate.MaxRetries = 1 << 30
 	if rp := ev.LoadReplay(); rp != nil {
+		if rp.Phase == "stop_under_traffic" {
+			ev.RunReplay(rp, runStopUnderTraffic)
+		}
 		if rp.Phase == "slow_scan" {
 			ev.RunReplay(rp, aggh.RunSlow)
 		}
